@@ -22,7 +22,7 @@ func frameSpans(w []byte) [][2]int {
 			}
 			j++
 		}
-		for j < len(w) && w[j] == 2 {
+		for j+1 < len(w) && w[j] == 2 {
 			l := int(w[j+1])
 			if l == 0 {
 				l = 256
